@@ -443,13 +443,16 @@ func toolsSlice() {
 	toolDefs := []string{
 		`{"name":"f1","description":"first","input_schema":{"type":"object","properties":{"a":{"type":"integer"}},"required":["a"]}}`,
 		`{"name":"f2","input_schema":{"type":"object","properties":{}}}`,
+		// a schema as tool authors write them: 64-bit bounds, a default above 2^53, fractions and exponents, enum with mixed
+		// types, nested arrays, non-ASCII description - the definition the backend receives must be this one
+		`{"name":"f3","description":"thïrd 🌍 \"q\"","input_schema":{"type":"object","properties":{"n":{"type":"integer","minimum":-9223372036854775808,"maximum":9223372036854775807,"default":9007199254740993},"x":{"type":"number","multipleOf":0.1,"exclusiveMinimum":1e-7},"e":{"enum":["a",null,1,true,1.50]},"arr":{"type":"array","items":{"type":"array","items":{"type":"string"}},"minItems":0}},"required":["n"],"additionalProperties":false}}`,
 	}
 	choices := []struct{ label, json, want string }{
 		{"absent", "", "<absent>"}, {`"auto"`, `"auto"`, `"auto"`}, {`"any"`, `"any"`, `"required"`}, {`"none"`, `"none"`, `"none"`},
 		{"{auto}", `{"type":"auto"}`, `"auto"`}, {"{any}", `{"type":"any"}`, `"required"`}, {"{none}", `{"type":"none"}`, `"none"`},
 		{"{tool,f1}", `{"type":"tool","name":"f1"}`, `{"function":{"name":"f1"},"type":"function"}`}, {"{tool}", `{"type":"tool"}`, "<invalid>"},
 	}
-	for nt := 0; nt <= 2; nt++ {
+	for nt := 0; nt <= 3; nt++ {
 		for _, ch := range choices {
 			extra := ""
 			if nt > 0 {
